@@ -357,6 +357,13 @@ func (r *Run) load(p *PtrV) Value {
 	if p.sym != nil {
 		arr := navigate(o.val, p.path).(*ArrayV)
 		arr.mat()
+		if r.ts.intMode {
+			el := make([]Value, len(arr.e))
+			for i := p.lo; i < p.lo+p.n; i++ {
+				el[i] = r.fixSort(arr.e[i], nil)
+			}
+			return r.selectTerm(el, p.sym, p.lo, p.n)
+		}
 		return r.selectTerm(arr.e, p.sym, p.lo, p.n)
 	}
 	return copyVal(navigate(o.val, p.path))
@@ -426,7 +433,7 @@ func (r *Run) sliceBytes(s *SliceV) []*Term {
 	arr := r.sliceArr(s)
 	out := make([]*Term, s.len)
 	for i := 0; i < s.len; i++ {
-		out[i] = arr.e[s.off+i].(*Term)
+		out[i] = r.fixSort(arr.e[s.off+i], nil).(*Term)
 	}
 	return out
 }
